@@ -608,3 +608,18 @@ M("c01-shared-default-queue", ["C01"], [("repid/connections/in_memory/utils.py",
 M("c03-aexit-no-finish", ["C03"], [("repid/connections/abc.py", "    async def __aexit__(self, *exc: object) -> None:\n        await self.finish()", "    async def __aexit__(self, *exc: object) -> None:\n        await self.pause()")], "R-C03-FINISH")
 M("c13-redis-expiry-from-ttl-only", ["C13"], [("repid/connections/redis/bucket_broker.py", "exat=payload.timestamp + payload.ttl if payload.ttl is not None else None,", "ex=payload.ttl,")], "R-C13-FIELDS")
 M("c18-asyncify-drops-kwargs", ["C18"], [("repid/_asyncify.py", "partial(fn, *args, **kwargs),  # type: ignore[arg-type]", "partial(fn, *args),  # type: ignore[arg-type]")], "R-C18-FLOW")
+
+# ----------------------------------------------------------------------------------------------- normalisations (constants, tables)
+_RU = "repid/connections/redis/utils.py"
+_RC = "repid/connections/redis/consumer.py"
+_RB = "repid/connections/redis/message_broker.py"
+R("norm-r-reject-field-constant", ["C01", "C05", "C14"], [
+    (_RU, 'VALID_PRIORITIES = ', 'REJECT_TO_FIELD = "_reject_to"\nVALID_PRIORITIES = '),
+    (_RC, '            key="_reject_to",', '            key=utils_REJECT,'),
+    (_RC, 'class _RedisConsumer(ConsumerT):', 'from repid.connections.redis.utils import REJECT_TO_FIELD as utils_REJECT\n\n\nclass _RedisConsumer(ConsumerT):'),
+])
+M("norm-reject-field-constant-mismatch", ["C01"], [
+    (_RU, 'VALID_PRIORITIES = ', 'REJECT_TO_FIELD = "_rejected_to"\nVALID_PRIORITIES = '),
+    (_RC, '            key="_reject_to",', '            key=utils_REJECT,'),
+    (_RC, 'class _RedisConsumer(ConsumerT):', 'from repid.connections.redis.utils import REJECT_TO_FIELD as utils_REJECT\n\n\nclass _RedisConsumer(ConsumerT):'),
+], "R-C01-SOURCE")
